@@ -134,6 +134,28 @@ pub fn execute(store: &mut AnnotationStore, op: &Op) -> Outcome {
         Op::RemoveResource(r) => res(guard(|| store.remove_resource(bi::<TextResource>(r))), |_| None),
         Op::RemoveDataset(r) => res(guard(|| store.remove_dataset(bi::<AnnotationDataSet>(r))), |_| None),
         Op::ProtectText(m) => res(guard(|| store.protect_text(pmode(*m))), |_| None),
+        Op::QueryDelete(kind, id) => {
+            // ANNOTATION goes through STAMQL text (the only result type the DELETE grammar accepts), the other two
+            // through a programmatically built query
+            let q = format!("DELETE ANNOTATION ?x {{ SELECT ANNOTATION ?x WHERE ID \"{}\"; }}", id);
+            res(
+                guard(|| -> Result<(), StamError> {
+                    let query: Query = match kind {
+                        'A' => q.as_str().try_into()?,
+                        'R' => Query::new(QueryType::Delete, Some(Type::TextResource), Some("x")).with_subquery(
+                            Query::new(QueryType::Select, Some(Type::TextResource), Some("x")).with_constraint(Constraint::Id(id.as_str())),
+                        ),
+                        _ => Query::new(QueryType::Delete, Some(Type::AnnotationDataSet), Some("x")).with_subquery(
+                            Query::new(QueryType::Select, Some(Type::AnnotationDataSet), Some("x")).with_constraint(Constraint::Id(id.as_str())),
+                        ),
+                    };
+                    let iter = store.query_mut(query)?;
+                    for _ in iter {}
+                    Ok(())
+                }),
+                |_| None,
+            )
+        }
     }
 }
 
